@@ -14,9 +14,23 @@ Import ListNotations.
 (* element types of lists *)
 Inductive bty : Type := BMI | BInt | BBool | BStr.
 
+(* The parametrised domains of the header (Print.dom_decls), both of category BoxCat(T):
+     BoxA(T): bump adds 1;            twice and scale come from the category defaults
+     BoxB(T): bump doubles;           scale is overridden, twice comes from the default
+   (langtype.tex:1488-1528: a default body reaches the other exports through %, "late
+   binding"; a definition in the domain over-rides the default).                        *)
+Inductive dom : Type := DA | DB.
+
+(* numeric domain selector for the overloaded arithmetic of IntegerType *)
+Inductive nty : Type := NMI | NInt.
+
 Inductive ty : Type :=
 | TMI | TInt | TBool | TStr
-| TList (b : bty).                      (* List(T), sal_list.as: immutable use only *)
+| TList (b : bty)                       (* List(T), sal_list.as: immutable use only *)
+| TBox (d : dom) (n : nty).             (* BoxA(T) / BoxB(T) for T = MachineInteger / Integer *)
+
+Definition dom_eqb (a b : dom) : bool := match a, b with DA, DA | DB, DB => true | _, _ => false end.
+Definition nty_eqb (a b : nty) : bool := match a, b with NMI, NMI | NInt, NInt => true | _, _ => false end.
 
 Definition bty_eqb (a b : bty) : bool :=
   match a, b with
@@ -28,14 +42,13 @@ Definition ty_eqb (a b : ty) : bool :=
   match a, b with
   | TMI, TMI | TInt, TInt | TBool, TBool | TStr, TStr => true
   | TList x, TList y => bty_eqb x y
+  | TBox d n, TBox d' n' => (dom_eqb d d' && nty_eqb n n')%bool
   | _, _ => false
   end.
 
 Definition ty_of_bty (b : bty) : ty :=
   match b with BMI => TMI | BInt => TInt | BBool => TBool | BStr => TStr end.
 
-(* numeric domain selector for the overloaded arithmetic of IntegerType *)
-Inductive nty : Type := NMI | NInt.
 Definition ty_of_nty (n : nty) : ty := match n with NMI => TMI | NInt => TInt end.
 
 (* Literals are always written qualified (`5@MachineInteger`): an unqualified integer
@@ -59,7 +72,10 @@ Inductive prim : Type :=
 | PCat | PLen | PSEq | PSNe            (* + # = ~= on String *)
 (* List(T) (sal_list.as): cons, first, rest, #, empty?, reverse (a copy), =, ~=, l.i (1-based) *)
 | PLCons (b : bty) | PLFirst (b : bty) | PLRest (b : bty) | PLLen (b : bty) | PLEmptyQ (b : bty)
-| PLRev (b : bty) | PLEq (b : bty) | PLNe (b : bty) | PLNth (b : bty).
+| PLRev (b : bty) | PLEq (b : bty) | PLNe (b : bty) | PLNth (b : bty)
+(* exports of BoxCat(T) *)
+| PBox (d : dom) (n : nty) | PUnbox (d : dom) (n : nty) | PBump (d : dom) (n : nty)
+| PTwice (d : dom) (n : nty) | PScale (d : dom) (n : nty).
 
 (* parametrised macros (langmacs.tex:43-47 `Op Parms ==> Body`), declared in the header:
      DBL(x) ==> ((x) + (x));   SQR(x) ==> ((x) * (x));
